@@ -151,7 +151,7 @@ def check(ctx):
                               'the integrand was evaluated at', {'weight_calls': len(wc)})
                 return
             wt = (wc[0]['kind'], wc[0]['name'], wc[0]['obj'])
-            ok, wit = algebra.equal(acc[0]['args'][3], mul(fv, wt))
+            ok, wit = algebra.equal(accumulate_args(p, acc[0])[0][3], mul(fv, wt))
             if ok:
                 ctx.holds('R3.same_point', where, 'accumulated value = f(point) * point.weight(), the '
                           'virtual weight of the same point, applied exactly once')
